@@ -168,7 +168,7 @@ structure Wf (N : Nat) (r : ReadinessVec) : Prop where
   cnt : r.roleCount = countRange r.roleFlags.get 0 N
   max : r.roleMax = N
 
-theorem Wf.mk' {N : Nat} {r : ReadinessVec} (hl : r.roleFlags.len = N)
+theorem Wf.mk2 {N : Nat} {r : ReadinessVec} (hl : r.roleFlags.len = N)
     (hc : r.roleCount = countRange r.roleFlags.get 0 N) (hm : r.roleMax = N) : Wf N r :=
   ⟨hl, fun i hi => by simp [BitSet.idx, hl]; omega, hc, hm⟩
 
@@ -187,7 +187,7 @@ theorem new_tie (N : Nat) (b : World) :
       simp [BitSet.idx, BitSet.ones, h, this]
     · simp [BitSet.idx, BitSet.ones, h]
   have hlen : (BitSet.ones N).len = N := rfl
-  refine ⟨_, rfl, Wf.mk' rfl ?_ rfl, ?_⟩
+  refine ⟨_, rfl, Wf.mk2 rfl ?_ rfl, ?_⟩
   · simp only [ReadinessVec.roleFlags, ReadinessVec.roleCount, BitSet.ones]
     rw [countRange_all]; intro i _ h; simp; omega
   · simp [abs, World.withStd, ReadinessVec.roleFlags, ReadinessVec.roleCount,
@@ -203,7 +203,7 @@ theorem set_ready_tie (N : Nat) (r : ReadinessVec) (b : World) (i : Nat) (h : Wf
   cases hb : r.roleFlags.get i <;> rw [hb] at hix <;> unroles
   · simp [hb] at hu
     simp [hix, BitSet.set, hl, hi, uadd, World.isSet, World.setReady]
-    refine ⟨Wf.mk' rfl (by unroles; omega) (by unroles; exact hm), ?_⟩
+    refine ⟨Wf.mk2 rfl (by unroles; omega) (by unroles; exact hm), ?_⟩
     funext j; by_cases hji : j = i <;> simp [upd, hji, BitSet.idx, hl, hi]
   · simp [hix, World.isSet, World.setReady]
     exact ⟨hl, hh, hc, hm⟩
@@ -224,7 +224,7 @@ theorem clear_ready_tie (N : Nat) (r : ReadinessVec) (b : World) (i : Nat) (h : 
     unroles
     simp [hb] at hu
     simp [hix, BitSet.set, hl, hi, usub, hge, World.isSet, World.clearReady]
-    refine ⟨Wf.mk' rfl (by unroles; omega) (by unroles; exact hm), ?_⟩
+    refine ⟨Wf.mk2 rfl (by unroles; omega) (by unroles; exact hm), ?_⟩
     funext j; by_cases hji : j = i <;> simp [upd, hji, BitSet.idx, hl, hi]
 
 theorem set_all_ready_tie (N : Nat) (r : ReadinessVec) (b : World) (h : Wf N r) :
@@ -233,7 +233,7 @@ theorem set_all_ready_tie (N : Nat) (r : ReadinessVec) (b : World) (h : Wf N r) 
   obtain ⟨hl, hh, hc, hm⟩ := h
   unfold ReadinessVec.set_all_ready
   unroles
-  refine ⟨_, rfl, Wf.mk' ?_ ?_ ?_, ?_⟩
+  refine ⟨_, rfl, Wf.mk2 ?_ ?_ ?_, ?_⟩
   · unroles; simpa [BitSet.setAll] using hl
   · unroles; simp only [BitSet.setAll, hm]; rw [countRange_all]; intro j _ hj; simp; omega
   · unroles; exact hm
@@ -288,7 +288,7 @@ theorem resize_grow_tie (N : Nat) (r : ReadinessVec) (b : World) (len : Nat) (h 
         have h3 : N ≤ i ∧ i < len := by omega
         simp only [F, h3, and_self, if_true]
     refine ⟨{ ready_count := r.roleCount + (len - N), max_count := len, readiness_list := ⟨len, F⟩,
-              parent_waker := r.roleParent }, ?_, Wf.mk' rfl ?_ rfl, ?_⟩
+              parent_waker := r.roleParent }, ?_, Wf.mk2 rfl ?_ rfl, ?_⟩
     · unfold ReadinessVec.resize
       unroles
       simp [hcmp, hl, hgs, usub, uadd, hlen]
@@ -337,7 +337,7 @@ theorem resize_shrink_wf (N : Nat) (r : ReadinessVec) (len : Nat) (h : Wf N r) (
     simp [BitSet.truncate, hl, h1, h2]
   refine ⟨{ ready_count := r.roleCount - countRange r.roleFlags.get len (N - len), max_count := len,
             readiness_list := BitSet.truncate r.roleFlags len, parent_waker := r.roleParent },
-          ?_, Wf.mk' rfl ?_ rfl, hget, rfl⟩
+          ?_, Wf.mk2 rfl ?_ rfl, hget, rfl⟩
   · unfold ReadinessVec.resize
     unroles
     simp [hl, hcmp, hcf, usub, hge]
@@ -360,7 +360,7 @@ theorem wake_tie (N : Nat) (r : ReadinessVec) (b : World) (id : Nat) (h : Wf N r
     simp [hb] at hu <;>
     simp [hix, hp, BitSet.set, hl, hi, uadd, expect, World.isSet, World.fireWk, World.setReady, World.emits,
       World.emit]
-  · refine ⟨_, _, ⟨rfl, rfl⟩, Wf.mk' rfl (by unroles; omega) (by unroles; exact hm), ?_⟩
+  · refine ⟨_, _, ⟨rfl, rfl⟩, Wf.mk2 rfl (by unroles; omega) (by unroles; exact hm), ?_⟩
     simp; funext j; by_cases hji : j = id <;> simp [upd, hji, BitSet.idx, hl, hi]
   · exact ⟨r, [], ⟨rfl, rfl⟩, ⟨hl, hh, hc, hm⟩, hl, rfl, rfl, hp, rfl⟩
   · exact ⟨r, [], ⟨rfl, rfl⟩, ⟨hl, hh, hc, hm⟩, hl, rfl, rfl, hp, rfl⟩
@@ -432,5 +432,8 @@ example : (do let r ← StdVec.ReadinessVec.new 2
 #print axioms TieVec.resize_grow_tie
 #print axioms TieVec.resize_shrink_wf
 #print axioms TieVec.wake_tie
+#print axioms TieVec.Wf.mk2
+#print axioms TieVec.idx_lt
+#print axioms TieVec.idx_ge
 
 end Fc
